@@ -658,4 +658,73 @@ example : ∃ σ0 σ, SysInit [1, 1, 1, 1] exByz σ0 ∧ Reach [1, 1, 1, 1] exBy
     Out.commit 1 0 7 ∈ σ.log 0 ∧ Out.commit 1 0 7 ∈ σ.log 1 :=
   ⟨exSys0, _, exSys_init, exSys_reach, by decide, exSys_commits.1, exSys_commits.2.1⟩
 
+/-! ## all heights at once -/
+
+/-- the system with one merged history PER HEIGHT (`hist H`); states and logs are those of `Sys` -/
+structure MSys where
+  st : Nat → St
+  log : Nat → List Out
+  hist : Nat → List Event
+
+/-- what the system looks like to an observer of height `H` -/
+def MSys.at (σ : MSys) (H : Nat) : Sys := { st := σ.st, log := σ.log, hist := σ.hist H }
+
+/-- one step of the system, observed at every height simultaneously: the adversary adds an event of a Byzantine validator to the
+history of any height; a correct node handles one input (`Sched` as before; `Recv` for whichever height the input is a vote of) and
+its votes and commits go to the histories of their heights -/
+inductive MStep (powers : List Nat) (byz : Nat → Bool) : MSys → MSys → Prop
+  | adversary (σ : MSys) (H : Nat) (e : Event) (hb : byz (actor e) = true) :
+      MStep powers byz σ { σ with hist := upd σ.hist H (σ.hist H ++ [e]) }
+  | deliver (σ : MSys) (n : Nat) (i : In) (hn : byz n = false) (hsch : Sched (σ.log n) i) (hrecv : ∀ H, Recv H (σ.hist H) i) :
+      MStep powers byz σ { st := upd σ.st n (step (σ.st n) i), log := upd σ.log n (σ.log n ++ (step (σ.st n) i).out),
+                           hist := fun H => σ.hist H ++ evsOf H n (stepCore (σ.st n) i).out }
+
+inductive MReach (powers : List Nat) (byz : Nat → Bool) : MSys → MSys → Prop
+  | refl (σ : MSys) : MReach powers byz σ σ
+  | step {σ σ' σ'' : MSys} : MReach powers byz σ σ' → MStep powers byz σ' σ'' → MReach powers byz σ σ''
+
+/-- a step of the all-heights system is, for an observer of height `H`, a step of the height-`H` system or no step at all -/
+theorem mstep_at {powers : List Nat} {byz : Nat → Bool} {σ σ' : MSys} (hs : MStep powers byz σ σ') (H : Nat) :
+    σ'.at H = σ.at H ∨ SysStep powers byz H (σ.at H) (σ'.at H) := by
+  cases hs with
+  | adversary H' e hb =>
+    by_cases hh : H = H'
+    · subst hh
+      right
+      have : MSys.at { σ with hist := upd σ.hist H (σ.hist H ++ [e]) } H = { (σ.at H) with hist := (σ.at H).hist ++ [e] } := by
+        simp [MSys.at, upd]
+      rw [this]
+      exact SysStep.adversary _ e hb
+    · left; simp [MSys.at, upd, hh]
+  | deliver n i hn hsch hrecv =>
+    exact Or.inr (SysStep.deliver (σ.at H) n i hn hsch (hrecv H))
+
+/-- a run of the all-heights system is, for every height `H`, a run of the height-`H` system -/
+theorem mreach_at {powers : List Nat} {byz : Nat → Bool} {σ σ' : MSys} (hr : MReach powers byz σ σ') (H : Nat) :
+    Reach powers byz H (σ.at H) (σ'.at H) := by
+  induction hr with
+  | refl => exact Reach.refl _
+  | step _ hs ih =>
+    rcases mstep_at hs H with e | hstep
+    · rw [e]; exact ih
+    · exact Reach.step ih hstep
+
+/-- initial all-heights systems: every history empty, correct nodes as in `SysInit` -/
+def MInit (powers : List Nat) (byz : Nat → Bool) (σ : MSys) : Prop :=
+  (∀ H, σ.hist H = []) ∧ ∀ n, byz n = false → Good (σ.st n) ∧ (σ.st n).powers = powers ∧ σ.log n = [] ∧ (σ.st n).rvs = [(0, RV.empty)]
+
+/-- **node_models_agree_all_heights**: in every reachable system state, for EVERY height, any two correct node models that committed at
+that height committed the same value (Byzantine power below one third) -/
+theorem node_models_agree_all_heights {powers : List Nat} {byz : Nat → Bool} {σ0 σ : MSys} (h0 : MInit powers byz σ0)
+    (hr : MReach powers byz σ0 σ) (hb : byzBound (cfgOf powers byz)) :
+    ∀ (H n n' r r' b b' : Nat), byz n = false → byz n' = false →
+      Out.commit H r b ∈ σ.log n → Out.commit H r' b' ∈ σ.log n' → b = b' := by
+  intro H n n' r r' b b' hn hn' h1 h2
+  exact node_models_agree (σ0 := σ0.at H) (σ := σ.at H) ⟨h0.1 H, h0.2⟩ (mreach_at hr H) hb n n' r r' b b' hn hn' h1 h2
+
+/-- and every height's merged history is disciplined -/
+theorem node_models_disciplined_all_heights {powers : List Nat} {byz : Nat → Bool} {σ0 σ : MSys} (h0 : MInit powers byz σ0)
+    (hr : MReach powers byz σ0 σ) (H : Nat) : disciplined (cfgOf powers byz) (σ.hist H) = true :=
+  node_models_disciplined (σ0 := σ0.at H) (σ := σ.at H) ⟨h0.1 H, h0.2⟩ (mreach_at hr H)
+
 end Props.C01Node
